@@ -106,6 +106,9 @@ def judge_c04(prop, spec_name, ch, case, which, res):
     if not _finite(res["np_val"]):
         counts["non-regular-point"] += 1
         return out
+    if not getattr(case, "value_oracle", True):
+        counts["reduced-precision-operands"] += 1      # float32: identities only hold to eps32
+        return out
     m, n = r["m"], r["n"]
     R, p1 = W.matrix_from(r["rows"], m, n, True)
     F, p2 = W.matrix_from(f["cols"], f["m"], f["n"], False)
